@@ -218,3 +218,82 @@ def cases(tier):
     if tier == "thorough":
         cs += [BanditStep("UCB", 2, 3, False), BanditStep("TS", 2, 3, True), BanditStep("UCB", 3, 3, True)]
     return cs
+
+
+# --------------------------------------------------------------------------- after an architecture mutation
+
+import agilerl.hpo.mutation as mut_mod
+from agilerl.hpo.mutation import Mutations
+from agilerl.modules.mlp import EvolvableMLP
+
+
+class BanditReinit(Case):
+    """Mutations._reinit_bandit_grads: after the output layer changed size the stored matrix has the new size, is the old
+    matrix on the kept coordinates (a principal sub-matrix: symmetric positive definite if the old one was) and lambda*I on
+    the new ones (zero coupling) — hence still symmetric positive definite"""
+    functions = (Mutations._reinit_bandit_grads,)
+    stubs = ("individual = record with sigma_inv (symbolic), lamb (symbolic), device; the offspring is a real EvolvableMLP, the old output layer a real nn.Linear",
+             "agilerl.hpo.mutation.torch -> ShimTorch (from_numpy accepts proxy arrays)")
+    assumptions = ("lambda > 0", "the stored matrix is symmetric")
+    site = "Mutations._reinit_bandit_grads"
+
+    def __init__(self, h_old, h_new, arms=1):
+        self.h_old, self.h_new, self.arms = h_old, h_new, arms
+        self.name = f"bandit-reinit-h{h_old}to{h_new}-out{arms}"
+        self.bounds = {"old_output_layer": f"Linear({h_old},{arms})", "new_output_layer": f"Linear({h_new},{arms})", "symbolic": "stored matrix, lambda"}
+
+    def run(self, v):
+        import torch.nn as nn
+        ho, hn, A = self.h_old, self.h_new, self.arms
+        n_old, n_new = A * ho + A, A * hn + A
+        S = v.tensor("S", (n_old, n_old))
+        for i in range(n_old):
+            for j in range(i):
+                v.assume(eq(val(S, i, j), val(S, j, i)))
+        lamb = v.real("lambda")
+        v.assume(lamb > 0)
+        Spre = [[val(S, i, j) for j in range(n_old)] for i in range(n_old)]
+        try:
+            new_actor = EvolvableMLP(2, A, [hn], min_mlp_nodes=1, max_mlp_nodes=16)
+        except Exception as ex:   # noqa: BLE001
+            raise HarnessError(f"could not build the MLP: {ex}")
+        old_layer = nn.Linear(ho, A)
+
+        class Ind:
+            pass
+        ind = Ind()
+        ind.sigma_inv, ind.lamb, ind.device, ind.accelerator = S, lamb, "cpu", None
+        m = Mutations(0, 0, 0, 0, 0, 0, rand_seed=1)
+        patches = [(mut_mod, "torch", ShimTorch())] if v.mode != "real" else []
+        with patched(*patches):
+            m._reinit_bandit_grads(ind, new_actor, old_layer)
+        S1 = ind.sigma_inv
+        res = [Ob("size-is-the-number-of-parameters-of-the-new-output-layer", tuple(S1.shape) == (n_new, n_new) and ind.numel == n_new)]
+        if tuple(S1.shape) != (n_new, n_new):
+            return res
+        P = [[val(S1, i, j) for j in range(n_new)] for i in range(n_new)]
+        res.append(Ob("symmetric", conj(*[eq(P[i][j], P[j][i]) for i in range(n_new) for j in range(i)])))
+        # kept coordinates: the leading min(old,new) entries of each parameter (weight, then bias), as the code defines them
+        kept_new, kept_old = [], []
+        for (off_o, size_o), (off_n, size_n) in (((0, A * ho), (0, A * hn)), ((A * ho, A), (A * hn, A))):
+            k = min(size_o, size_n)
+            kept_old += list(range(off_o, off_o + k))
+            kept_new += list(range(off_n, off_n + k))
+        added = [i for i in range(n_new) if i not in kept_new]
+        res.append(Ob("kept-coordinates-carry-the-old-matrix-(principal-sub-matrix)",
+                      conj(*[eq(P[a][b], Spre[c][d]) for a, c in zip(kept_new, kept_old) for b, d in zip(kept_new, kept_old)])))
+        res.append(Ob("new-coordinates-get-lambda-on-the-diagonal", conj(*[eq(P[i][i], lamb) for i in added]) if added else True, site=self.site + "/lambda-on-new-diagonal"))
+        res.append(Ob("new-coordinates-are-uncoupled-(zero-off-diagonal)", conj(*[eq(P[i][j], 0) for i in added for j in range(n_new) if j != i] + [eq(P[j][i], 0) for i in added for j in range(n_new) if j != i])
+                      if added else True, site=self.site + "/lambda-on-new-diagonal"))
+        return res
+
+
+_cases_step = cases
+
+
+def cases(tier):   # noqa: F811
+    cs = _cases_step(tier)
+    cs += [BanditReinit(1, 2), BanditReinit(1, 3), BanditReinit(2, 1), BanditReinit(2, 2), BanditReinit(1, 2, arms=2)]
+    if tier == "thorough":
+        cs += [BanditReinit(2, 4), BanditReinit(3, 1), BanditReinit(2, 3, arms=2)]
+    return cs
